@@ -26,6 +26,7 @@ import (
 	"google.golang.org/grpc"
 
 	"github.com/kubewharf/kubebrain/pkg/metrics"
+	"github.com/kubewharf/kubebrain/pkg/verifhook"
 )
 
 var (
@@ -169,6 +170,7 @@ func (pw *prometheusWrapper) mustGetGaugeVec(name string, labels []metrics.T) (v
 	if vec != nil {
 		return vec
 	}
+	verifhook.Yield("metrics.miss", 0, 0)
 
 	// create a new metric
 	pw.gaugeVecMu.Lock()
@@ -194,6 +196,7 @@ func (pw *prometheusWrapper) mustGetCounterVec(name string, labels []metrics.T) 
 	if vec != nil {
 		return vec
 	}
+	verifhook.Yield("metrics.miss", 0, 0)
 
 	// create a new metric
 	pw.counterVecMu.Lock()
@@ -219,6 +222,7 @@ func (pw *prometheusWrapper) mustGetHistogramVec(name string, labels []metrics.T
 	if vec != nil {
 		return vec
 	}
+	verifhook.Yield("metrics.miss", 0, 0)
 
 	// create a new metric
 	pw.histogramVecMu.Lock()
